@@ -43,6 +43,8 @@ func (o L1Op) String() string {
 	switch o.Kind {
 	case "login":
 		return fmt.Sprintf("login(s%d)", o.S)
+	case "badlogin":
+		return fmt.Sprintf("invalid-login(pid 0, s%d)", o.S)
 	case "event":
 		return fmt.Sprintf("event(s%d.%d)", o.S, o.E)
 	case "cleanup":
@@ -89,6 +91,11 @@ func (w *L1World) Exec(tr tracker, op L1Op) error {
 		return tr.RemoteLogin(MakeRUL(w.Sessions[op.S].Login, time.Now()))
 	case "event":
 		return tr.AuditdEvent(w.evs[op.S][op.E])
+	case "badlogin":
+		// an invalid login (PID 0): the correlator must reject it and stay usable
+		r := MakeRUL(w.Sessions[op.S].Login, time.Now())
+		r.PID = 0
+		return tr.RemoteLogin(r)
 	case "cleanup":
 		cut := time.Now().Add(time.Duration(op.Cut) * time.Second)
 		tr.DeleteUsersWithoutLoginsBefore(cut)
@@ -158,17 +165,11 @@ func (w *L1World) seqOutcomes(prog [][]L1Op, probes []L1Op, limit int) (map[stri
 			r := &Recorder{NoPoint: true}
 			tr := newTracker(r)
 			var errs []string
-			for _, op := range order {
-				if err := w.Exec(tr, op); err != nil {
-					errs = append(errs, op.String()+":"+errClass(err))
-				}
-			}
-			for _, op := range probes {
-				if err := w.Exec(tr, op); err != nil {
-					errs = append(errs, op.String()+":"+errClass(err))
-				}
-			}
+			stuck := w.execAllInline(tr, append(append([]L1Op{}, order...), probes...), &errs)
 			obs := w.Observable(r.Events, errs)
+			if stuck != "" {
+				obs += " STUCK:" + stuck
+			}
 			if _, ok := out[obs]; !ok {
 				out[obs] = fmt.Sprint(ordTasks)
 			}
@@ -176,6 +177,26 @@ func (w *L1World) seqOutcomes(prog [][]L1Op, probes []L1Op, limit int) (map[stri
 	}
 	rec()
 	return out, n
+}
+
+// execAllInline runs ops sequentially on the scheduler goroutine; a self-deadlock of the code
+// under test ends the execution and is reported.
+func (w *L1World) execAllInline(tr tracker, ops []L1Op, errs *[]string) (stuck string) {
+	defer func() {
+		if r := recover(); r != nil {
+			if d, ok := r.(simrt.InlineDeadlock); ok {
+				stuck = d.Site
+				return
+			}
+			panic(r)
+		}
+	}()
+	for _, op := range ops {
+		if err := w.Exec(tr, op); err != nil {
+			*errs = append(*errs, op.String()+":"+errClass(err))
+		}
+	}
+	return ""
 }
 
 func errClass(err error) string {
@@ -221,7 +242,10 @@ type progRunner struct {
 
 //go:norace
 func (p *progRunner) run(ops []L1Op) {
-	for _, op := range ops {
+	for i, op := range ops {
+		if i > 0 {
+			simrt.Point("between-deliveries") // a task can be preempted between two deliveries
+		}
 		if err := p.w.Exec(p.tr, op); err != nil {
 			p.errs = append(p.errs, op.String()+":"+errClass(err))
 		}
